@@ -38,6 +38,9 @@ def _data_variants(rng, src_shape, n):
         # same values, other memory layouts (Fortran order, transposed view of a C array)
         out.append(("ids_int64_F", np.asfortranarray(ids.reshape(src_shape)), None))
         out.append(("1ch_float32_Tview", np.ascontiguousarray(vals.astype(np.float32).reshape(src_shape).T).T, None))
+    # 64-bit integers beyond 2**53 (ids, timestamps in ns): values must come back bit for bit, whatever the type of the fill value
+    big = (ids.astype(np.int64) * 1000003 + (2 ** 60 + 12345)).astype(rng.choice([np.int64, np.uint64]))
+    out.append((f"1ch_big_{big.dtype.name}", big.reshape(src_shape), None))
     # legitimate non-finite data values: they are data, not "no neighbour" markers
     special = ids.astype(rng.choice([np.float32, np.float64]))
     for k in range(n):
@@ -99,7 +102,7 @@ def check_pair(ctx, src, tgt, radius, desc):
     # ---- data variants: end-to-end oracle + model correspondence for the sample extraction ---------
     src_shape = src.shape
     for vname, data, mask in _data_variants(ctx.rng, src_shape, n_src):
-        for fill in ((101 if vname.startswith("1ch") else -7), None):
+        for fill in ((3.0, np.float32(3.0), 101) if vname.startswith("1ch_big") else ((101 if vname.startswith("1ch") else -7), None)):
             inp = {**inp0, "data": vname, "fill_value": fill}
             try:
                 with warnings.catch_warnings():
@@ -110,7 +113,11 @@ def check_pair(ctx, src, tgt, radius, desc):
                 continue
             nch = 3 if vname.startswith("3ch") else 0
             want_shape = tuple(tgt.shape) + ((3,) if nch else ())
-            if tuple(res.shape) != want_shape or np.asarray(res).dtype != np.asarray(data).dtype:
+            if tuple(res.shape) == want_shape and np.asarray(res).dtype != np.asarray(data).dtype and not has.any() and isinstance(fill, (float, np.floating)):
+                # the "nothing to resample" shortcut returns float for integer data with a float fill value (the general path casts back):
+                # an inconsistency of the result's dtype, not of its values; counted, not judged
+                ctx.count("note.empty_shortcut_dtype")
+            elif tuple(res.shape) != want_shape or np.asarray(res).dtype != np.asarray(data).dtype:
                 ctx.fail("kd_tree.resample_nearest", "output shape / dtype is not the target's shape (+channels) with the input dtype",
                          inp, {"shape": list(res.shape), "want": list(want_shape), "dtype": str(res.dtype), "in_dtype": str(np.asarray(data).dtype)}, size=5)
                 continue
@@ -180,5 +187,16 @@ def run(ctx):
     lat = np.array([[0.0, 0.0], [0.0, 0.0]])
     check_pair(ctx, SwathDefinition(lon, lat), SwathDefinition(np.array([0.1, 0.9, 5.0, float("inf")]), np.array([0.0, 0.0, 0.0, 0.0])),
                50000.0, "fixed: 2 valid + NaN + out-of-range sources -> 1-D swath incl. inf target")
+    # the same definition objects used again after their coordinate arrays were shifted in place (e.g. a navigation correction)
+    for _ in range(3 if ctx.quick else 20):
+        lon, lat = kc.swath(ctx.rng, 6, 7, 12.0, 48.0, 3.0)
+        tl, tla = kc.swath(ctx.rng, 4, 5, 12.5, 48.2, 2.0)
+        src, tgt = SwathDefinition(lon, lat), SwathDefinition(tl, tla)
+        check_pair(ctx, src, tgt, 60000.0, "history: before the in-place shift")
+        lon += 0.9
+        lat -= 0.4
+        check_pair(ctx, src, tgt, 60000.0, "history: same objects after an in-place shift of the source coordinates")
+        tl -= 0.7
+        check_pair(ctx, src, tgt, 60000.0, "history: same objects after an in-place shift of the target coordinates")
     allbad = SwathDefinition(np.array([[float("nan"), 500.0]]), np.array([[0.0, 0.0]]))
     check_pair(ctx, allbad, SwathDefinition(np.array([0.0, 1.0]), np.array([0.0, 1.0])), 1e6, "fixed: no valid source at all")
